@@ -1477,6 +1477,8 @@ class Memoer(Tymee):
             if len(gram) < 4:  # assumes len(code) must be 4
                 raise hioing.MemoerError(f"Gram length={len(gram)} to short to "
                                          f"hold code.")
+            if not helping.Reb64.match(gram[:4]):  # so decode can not fail
+                raise hioing.MemoerError(f"Non-Base64 gram code={gram[:4]}.")
             code = gram[:4].decode()  # assumes len(code) must be 2
             if self.authic and code not in self.Audex:  # must be signed
                 raise hioing.MemoerError(f"Unsigned gram {code =} when signed "
@@ -1491,6 +1493,13 @@ class Memoer(Tymee):
             if len(gram) < (oz):  # not big enough for overhead
                 raise hioing.MemoerError(f"Not enough rx bytes for b64 gram"
                                          f" < {oz}.")
+
+            # head and signature parts must be Base64 text so that converting
+            # neck, mid, vid, and sig below can not fail on arbitrary rx bytes
+            if not (helping.Reb64.match(gram[:oz-az]) and
+                    helping.Reb64.match(gram[len(gram)-az:])):
+                raise hioing.MemoerError(f"Non-Base64 chars in b64 gram head "
+                                         f"or signature.")
 
             gnum = bytes(gram[bz:bz+nz])  # qb64b short part of neck
             gn = helping.b64ToInt(gnum)
